@@ -12,6 +12,10 @@ open GoUtils GoUtils.Retry
 
 theorem C14_facts_extracted : Generated.Retry.ok = true := by decide
 
+/-- the HTTP client is wired to the policy it is configured with: attempt limit, waits, the library's retry decision and
+    `BackOffPolicyFactory(policy).Apply` as its back-off (regenerated from retryable_client.go) -/
+theorem C14_client_wired_to_policy : Generated.Retry.clientWiredToPolicy = true := by decide
+
 theorem C14_loop_facts_canonical : Generated.Retry.loop.canonical := by
   simp [LoopFacts.canonical, Generated.Retry.loop]
 
